@@ -12,7 +12,7 @@ DE(k) == O("de", k)
 FE == O("fe", 0)
 NoAfter(p) == [t \in 1..Len(p) |-> <<>>]
 NoOwn(p) == [t \in 1..Len(p) |-> <<>>]
-Cfg(n, fr, own, prog, after) == [kind |-> "ids", n |-> n, fr |-> fr, own |-> own, prog |-> prog, after |-> after, nb |-> 0]
+Cfg(n, fr, own, prog, after) == [kind |-> "ids", n |-> n, fr |-> fr, own |-> own, prog |-> prog, after |-> after, nb |-> 0, smod |-> 0]
 \* the same programs followed by an observer thread that runs for_each once everybody is done
 WithObserver(c) == [c EXCEPT !.prog = Append(c.prog, <<FE>>), !.own = Append(c.own, <<>>),
                              !.after = Append(c.after, [t \in 1..Len(c.prog) |-> t])]
@@ -33,10 +33,10 @@ Cfg_3own == { Cfg(3, <<>>, << <<0>>, <<1>>, <<2>> >>, <<p, q, r>>, <<<<>>, <<>>,
                 p \in {<<DE(0), AL>>, <<DE(0), AL, DE(0)>>}, q \in {<<DE(0), AL>>, <<AL, DE(0)>>}, r \in {<<DE(0)>>, <<AL>>} }
 \* thread generations (ThreadId): allocate at birth, deallocate at exit; thread 3 is created after 1 exited
 P_tid == << <<AL, DE(0)>>, <<AL, FE, DE(0)>>, <<AL, DE(0)>>, <<AL, DE(0)>> >>
-Cfg_tid == { [kind |-> "tid", n |-> 0, fr |-> <<>>, own |-> NoOwn(P_tid), prog |-> P_tid, after |-> <<<<>>, <<>>, <<1>>, <<1, 2>>>>, nb |-> 0] }
+Cfg_tid == { [kind |-> "tid", n |-> 0, fr |-> <<>>, own |-> NoOwn(P_tid), prog |-> P_tid, after |-> <<<<>>, <<>>, <<1>>, <<1, 2>>>>, nb |-> 0, smod |-> 0] }
 
 P_tid3 == << <<AL, DE(0)>>, <<AL, FE, DE(0)>>, <<AL, DE(0)>> >>
-Cfg_tid3 == { [kind |-> "tid", n |-> 0, fr |-> <<>>, own |-> NoOwn(P_tid3), prog |-> P_tid3, after |-> <<<<>>, <<>>, <<1>>>>, nb |-> 0] }
+Cfg_tid3 == { [kind |-> "tid", n |-> 0, fr |-> <<>>, own |-> NoOwn(P_tid3), prog |-> P_tid3, after |-> <<<<>>, <<>>, <<1>>>>, nb |-> 0, smod |-> 0] }
 \* two threads, each holds one value, one value free: push / pop / mint races
 Cfg_2own == { Cfg(3, <<2>>, << <<0>>, <<1>> >>, <<p, q>>, <<<<>>, <<>>>>) :
                 p \in {<<DE(0), AL, AL>>, <<AL, DE(0), DE(0)>>}, q \in {<<DE(0), AL>>, <<AL, DE(1)>>} }
@@ -64,6 +64,18 @@ AbaWindow == \E t \in Thr : /\ pc[t] = "a_cas"
 NoAbaWindow == ~AbaWindow
 Cfg_w2 == { Cfg(2, <<1, 0>>, NoOwn(P_aba2), P_aba2, NoAfter(P_aba2)) }
 Cfg_w3 == { Cfg(2, <<1, 0>>, NoOwn(P_aba3), P_aba3, NoAfter(P_aba3)) }
+\* a deallocate that lost its first CAS and pushed on a retry, at least one version behind its first head load,
+\* while an allocate is parked between head load and CAS -- and now the head carries the parked allocate's value
+\* again with a different link, exactly as many versions ahead as the retried pushes lagged: had a retry reused
+\* the version computed at the first load, the parked compare-exchange would succeed (ABA through version regress)
+StalePushWindow == \E t \in Thr : /\ pc[t] = "a_cas" /\ L[t].lag > 0
+                                  /\ LastVal(ms, HeadLoc).value = L[t].cur.value
+                                  /\ LastVal(ms, HeadLoc).version - L[t].cur.version = L[t].lag
+                                  /\ LastVal(ms, FNext(L[t].cur.value)) # L[t].nh
+NoStalePushWindow == ~StalePushWindow
+\* A: allocate twice | G: deallocate(2) | M: deallocate(0), deallocate(1), allocate, allocate, deallocate(first held)
+P_w4 == << <<AL, AL>>, <<DE(0)>>, <<DE(0), DE(0), AL, AL, DE(0)>> >>
+Cfg_w4 == { Cfg(3, <<>>, << <<>>, <<2>>, <<0, 1>> >>, P_w4, NoAfter(P_w4)) }
 Cfg_sim == Cfg_quick \cup Cfg_3own \cup Cfg_tid
 
 \* hide the ghost event from the state identity
